@@ -453,7 +453,9 @@ pub fn scenarios(filter: &str) -> Vec<Scenario> {
         out.push(hugeweights('U'));
     }
     // key / value types other than the search engines' own (typex.rs)
-    if filter.starts_with("types1cpu") {
+    if filter.starts_with("typeslong") {
+        out.extend(crate::typex::scenarios_longlife().into_iter().filter(|s| s.name.starts_with(filter)));
+    } else if filter.starts_with("types1cpu") {
         out.extend(crate::typex::scenarios_1cpu().into_iter().filter(|s| s.name.starts_with(filter)));
     } else if filter.starts_with("types") {
         out.extend(crate::typex::scenarios().into_iter().filter(|s| s.name.starts_with(filter)));
